@@ -3620,3 +3620,41 @@ def quad_order(r: R, chk, qual: str = "heavy.LeastSquare.func2func", rule="QUAD-
            detail="" if bad is None else f"{qual}: for a source of degree {bad[0]} and a target of degree {bad[1]} the rule has {bad[2]} nodes (`{seg(expr, 40)}`), exact for degree < {bad[2]} only, but the Gram matrix of the {'target' if bad[1] >= bad[0] else 'source'} basis has entries of degree {2 * max(bad[0], bad[1])}: the matrices are inexact, the fitted curve is not the L2 projection (the residual is not orthogonal to the target basis) and exact and float input take different wrong answers",
            func=qual, construct="quadrature too short for the squares of the bases")
     return 1
+
+
+# ---------------------------------------------------------------------------------------------------------
+# AXIS-ORDER: the table of pairwise point products has its axes in the order of the product matrix (a, ., b)
+def axis_order(r: R, chk, qual: str, helper_suffix: str = "mul_spline_curve", rule="AXIS-ORDER"):
+    """`mul_spline_curve(U_a, U_b)[a][i][b]` multiplies basis function a of the FIRST vector with b of the SECOND.  A nested
+    comprehension `[[f(p, q) for q in Q] for p in P]` is indexed [P][Q]; contracted over both axes with matrix[:, i, :] its outer
+    loop therefore has to run over the points of the operand whose knot vector was passed first."""
+    ctx = r.root(qual)
+    fi = ctx.fi
+
+    def root(e):
+        v = ctx.val(e)
+        if v is None:
+            return None
+        rs = {d[1] for d in v.all_dep() if d[0] in ("P", "PF") and d[1] in (0, 1)}
+        return next(iter(rs)) if len(rs) == 1 else None
+
+    n = 0
+    calls = [c for c in ast.walk(fi.node) if isinstance(c, ast.Call) and seg(c.func).endswith(helper_suffix) and len(c.args) >= 2]
+    for c in calls:
+        first, second = root(c.args[0]), root(c.args[1])
+        if first is None or second is None or first == second:
+            continue
+        for comp in ast.walk(fi.node):
+            if not (isinstance(comp, ast.ListComp) and isinstance(comp.elt, ast.ListComp) and len(comp.generators) == 1 and len(comp.elt.generators) == 1):
+                continue
+            outer, inner = root(comp.generators[0].iter), root(comp.elt.generators[0].iter)
+            if outer is None or inner is None or outer == inner:
+                continue
+            # only tables that are contracted with the product matrix (same branch: both under the same statement list is enough here)
+            n += 1
+            ok = outer == first and inner == second
+            chk.ob(rule, f"{qual}: `{seg(comp, 50)}` is indexed like `{seg(c, 40)}`", ok, loc=r.loc(ctx, comp),
+                   detail="" if ok else f"{qual}: the table `{seg(comp, 60)}` is indexed [{fi.params[outer]}][{fi.params[inner]}] but the product matrix of `{seg(c, 50)}` is indexed [{fi.params[first]}][.][{fi.params[second]}]: contracted over both axes, basis function a of one curve meets point b of the other — a shape error when the curves have different numbers of control points, a silently wrong curve when they happen to have the same number on different knot vectors",
+                   func=qual, construct="pairwise product table transposed")
+    chk.floor(rule, f"tables of pairwise point products next to {helper_suffix} in {qual}", n, 1)
+    return n
